@@ -405,3 +405,6 @@ def check(ctx):
     r6_boundary_checks_look_at_the_boundary(ctx)
     r7_guard_reaches_the_compiler_as_written(ctx)
     r8_every_valid_guard_is_checked_for_overlap(ctx)
+
+
+CLAUSE += '; the domain guard is handed from Blueprint::domain to the schema as given'
